@@ -509,6 +509,8 @@ func main() {
 			}
 		}
 		check2D(r)
+		checkConj3(r, 2)
+		checkConj2(r, 3)
 		r.NontrivialAdd(2)
 		r.Sample(c)
 		r.Finish()
@@ -532,5 +534,13 @@ func main() {
 		r.Set("wrapped_transforms", len(sel))
 	})
 	r.Isolate("2d", func() { check2D(r) })
+	r.Isolate("conj", func() {
+		n := 2
+		if r.Thorough() {
+			n = 3
+		}
+		checkConj3(r, n)
+		checkConj2(r, n+1)
+	})
 	r.Finish()
 }
